@@ -262,6 +262,7 @@ class Gen:
         d = cfg["main_dim"]
         n = d + 1
         I = np.eye(n)
+        self.kcoll_c = None
         # transformations
         for _ in range(rng.randint(2, 4)):
             c = rng.random()
@@ -328,6 +329,31 @@ class Gen:
                 f = [rng.choice([1, 2, -1, 0.5, 3]) for _ in range(d)]
                 s = self.add_recipe("scaling", [f])
                 self.T[s] = {"m": np.diag(f + [1.0]), "fshape": ()}
+        # complex transformations (CP^n): a single one and, sometimes, a large collection
+        if rng.random() < 0.25:
+            for _ in range(50):
+                re_, im_ = self.inv_matrix(n), [[rng.randint(-1, 1) for _ in range(n)] for _ in range(n)]
+                mc = np.array(re_, float) + 1j * np.array(im_, float)
+                if cond_ok(mc) and np.linalg.cond(mc) <= 50:
+                    s = self.add_recipe("ctransf", [re_, im_])
+                    self.T[s] = {"m": mc, "fshape": ()}
+                    break
+        if rng.random() < 0.15 and cfg["big_coll"]:
+            k = rng.choice([64, 65])
+            base = []
+            for _ in range(200):
+                re_, im_ = self.inv_matrix(n, 30.0), [[rng.randint(-1, 1) for _ in range(n)] for _ in range(n)]
+                mc = np.array(re_, float) + 1j * np.array(im_, float)
+                if np.all(np.isfinite(mc)) and np.linalg.cond(mc) <= 30:
+                    base.append((re_, im_))
+                if len(base) >= 4:
+                    break
+            if base:
+                res = [base[i % len(base)][0] for i in range(k)]
+                ims = [base[i % len(base)][1] for i in range(k)]
+                s = self.add_recipe("ctransfcoll", [res, ims])
+                self.T[s] = {"m": np.array(res, float) + 1j * np.array(ims, float), "fshape": (k,)}
+                self.kcoll_c = k
         # a collection of transformations on both sides of the batch threshold of utils.inv
         if d >= 1 and rng.random() < 0.7:
             k = rng.choice([64, 65, 64, 70]) if cfg["big_coll"] else rng.choice([1, 2, 3, 5])
@@ -428,6 +454,22 @@ class Gen:
             obj("quadric", (), "sphere", [G[0], rng.choice([1, 2])])
             if rng.random() < 0.5:
                 obj("quadric", (), "cone", [G[0], G[1], 1])
+        if rng.random() < 0.35:
+            # complex SYMMETRIC quadrics (e.g. conics through complex points such as I, J)
+            qr, qi = pg.sym(n), pg.sym(n, -2, 2)
+            for i in range(n):
+                qr[i][i] = qr[i][i] or 1
+            obj("quadric", (), "cquadric", [qr, qi], {"dual": rng.random() < 0.3})
+            kq = getattr(self, "kcoll_c", None) or kc
+            qrs, qis = [], []
+            for _ in range(kq):
+                a_, b_ = pg.sym(n), pg.sym(n, -2, 2)
+                for i in range(n):
+                    a_[i][i] = a_[i][i] or 1
+                qrs.append(a_)
+                qis.append(b_)
+            obj("quadric", (kq,), "cquadric", [qrs, qis], {"dual": False, "coll": True})
+            obj("point", (kq,), "pointcoll", [[pt() for _ in range(kq)]], {"dt": "c"})
         ms = []
         for _ in range(kc):
             q = pg.sym(n)
